@@ -177,7 +177,7 @@ fn helper_def(m: usize) -> ModuleDef {
 /// exports collide on purpose — with its own name and with names of the core library
 pub const FIXTURE_MODULE: (&str, &str) = (
     "mz.koto",
-    "rd = || (size, type, string, list)\nexport size = 41\nexport type = 42\nexport string = 43\nexport list = 44\nexport mz = 5\nexport ez_1 = 6\nexport ez_2 = 7\nexport ez_3 = 8\nexport rdv = rd()\nexport ma1, {mb1, mc1 as md1} = 1, {mb1: 2, mc1: 3}\nexport zsub = {zc: 12}\nexport lazy_v = ||\n  import mzh\n  mzh.v\n",
+    "rd = || (size, type, string, list)\nexport size = 41\nexport type = 42\nexport string = 43\nexport list = 44\nexport mz = 5\nexport ez_1 = 6\nexport ez_2 = 7\nexport ez_3 = 8\nexport rdv = rd()\nexport ma1, {mb1, mc1 as md1} = 1, {mb1: 2, mc1: 3}\nexport zsub = {zc: 12}\nexport lazy_v = ||\n  import mzh\n  mzh.v\nexport scaled = |n = 1| n * scale9\nexport scale9 = 10\n",
 );
 /// a module next to the fixture module that only the fixture's own function imports
 pub const FIXTURE_HELPER: (&str, &str) = ("mzh.koto", "export v = 7\n");
@@ -186,9 +186,14 @@ pub const FIXTURE_HELPER: (&str, &str) = ("mzh.koto", "export v = 7\n");
 pub const FIXTURE_EXTRA: &[(&str, &str)] = &[
     ("my.koto", "from mz import *\nexport\n  ez_1: ez_1\n  ez_9: ez_2 + 1\n"),
     ("mt.koto", "export @type = 'MT'\nexport x = 1\n"),
+    // a directory module that counts its own executions (in a neighbour it imports), reached
+    // under two spellings: by name from the script, as '../shd' from another directory module
+    ("shd/main.koto", "import cnt\ncnt.c.push 1\nexport sv = size cnt.c\n"),
+    ("shd/cnt.koto", "export c = []\n"),
+    ("sbd/main.koto", "from '../shd' import sv\nexport sw = sv\n"),
 ];
 /// what `Step::Fixture` records, by kind
-pub const FIXTURE_VALUES: &[&str] = &["6", "(41, 42, 43, 44)", "60708", "(1, 2, 3)", "7", "12", "(6, 8)", "('MT', 'MT')"];
+pub const FIXTURE_VALUES: &[&str] = &["6", "(41, 42, 43, 44)", "60708", "(1, 2, 3)", "7", "12", "(6, 8)", "('MT', 'MT')", "20", "(1, 1)"];
 
 fn mname(i: usize) -> String {
     format!("m{}", (b'a' + i as u8) as char)
@@ -363,6 +368,18 @@ fn render_steps(out: &mut Vec<String>, indent: usize, steps: &[Step], module: us
                     out.push(format!("{pad}import my as qy{id}"));
                     out.push(format!("{pad}val({id}, (qy{id}.ez_1, qy{id}.ez_9))"));
                 }
+                8 => {
+                    // a function with an optional argument whose only non-local is an export
+                    // made AFTER the function
+                    out.push(format!("{pad}import mz as qz{id}"));
+                    out.push(format!("{pad}val({id}, qz{id}.scaled(2))"));
+                }
+                9 => {
+                    // one directory module under two spellings runs once
+                    out.push(format!("{pad}import shd as qs{id}"));
+                    out.push(format!("{pad}import sbd as qt{id}"));
+                    out.push(format!("{pad}val({id}, (qs{id}.sv, qt{id}.sw))"));
+                }
                 7 => {
                     // a module with a meta entry, imported twice: both handles see it
                     out.push(format!("{pad}import mt as qa{id}"));
@@ -467,6 +484,9 @@ pub fn write_world(w: &World, scratch: &Scratch) {
     std::fs::write(scratch.dir.join(FIXTURE_MODULE.0), FIXTURE_MODULE.1).expect("write");
     std::fs::write(scratch.dir.join(FIXTURE_HELPER.0), FIXTURE_HELPER.1).expect("write");
     for (name, text) in FIXTURE_EXTRA {
+        if let Some(parent) = scratch.dir.join(name).parent() {
+            std::fs::create_dir_all(parent).expect("mkdir");
+        }
         std::fs::write(scratch.dir.join(name), text).expect("write");
     }
     for i in 0..w.modules.len() {
@@ -785,7 +805,7 @@ pub fn gen_scenario(seed: u64) -> Scenario {
                 }
                 if r.chance(1, 4) {
                     let at = 1 + r.usize_below(top.len());
-                    top.insert(at, Step::Fixture(id(), r.below(8) as u8));
+                    top.insert(at, Step::Fixture(id(), r.below(10) as u8));
                 }
                 if export_top_level {
                     top.push(Step::TopAssign(1, 5));
@@ -1910,6 +1930,9 @@ pub fn replay(doc: &Value) -> (Option<(String, String)>, u64) {
     std::fs::write(scratch.dir.join(FIXTURE_MODULE.0), FIXTURE_MODULE.1).expect("write");
     std::fs::write(scratch.dir.join(FIXTURE_HELPER.0), FIXTURE_HELPER.1).expect("write");
     for (name, text) in FIXTURE_EXTRA {
+        if let Some(parent) = scratch.dir.join(name).parent() {
+            std::fs::create_dir_all(parent).expect("mkdir");
+        }
         std::fs::write(scratch.dir.join(name), text).expect("write");
     }
     let write_file = |f: &Value| {
